@@ -7,6 +7,7 @@ import Mathlib.Data.List.Range
   triples and `[0, nx·ny·nz)`; the loop nests of `get_neighborhood` / `get_grid_content` visit
   exactly the voxels of their block, each once.
 -/
+set_option linter.unusedSectionVars false
 namespace Simu.Grid
 open Simu
 
